@@ -1,0 +1,411 @@
+//! Simulation seams for deterministic-simulation testing.
+//!
+//! This module only exists under `--cfg xray_verif`. It gives an external simulator control over
+//! the sources of nondeterminism the crate reads directly (monotonic clock, sleeping, hash
+//! iteration order, the scope id counter) and a read-only stream of accounting events.
+//! Nothing here can alter the control flow of the interpreter: the observer receives events by
+//! reference and returns nothing.
+use std::borrow::Borrow;
+use std::cell::RefCell;
+use std::fmt::{Debug, Formatter};
+use std::hash::{BuildHasher, Hash, Hasher};
+use std::ops::{Add, Deref, DerefMut, Index};
+use std::panic::Location;
+use std::time::Duration;
+
+/// which family of hash containers a hasher is created for
+#[derive(Debug, Clone, Copy, PartialEq, Eq)]
+pub enum LayoutDomain {
+    Runtime,
+    Compile,
+}
+
+#[derive(Debug, Clone)]
+pub enum Event {
+    Alloc {
+        size: usize,
+        total_after: usize,
+        ok: bool,
+        site: &'static Location<'static>,
+    },
+    Dealloc {
+        size: usize,
+        total_after: usize,
+    },
+    Preflight {
+        request: Option<usize>,
+        total: usize,
+        ok: bool,
+        site: &'static Location<'static>,
+    },
+    CallCount {
+        count: usize,
+        ok: bool,
+    },
+    CallEnter,
+    TailIteration {
+        iteration: usize,
+    },
+    DepthTrip {
+        height: usize,
+    },
+    RecursionTrip {
+        iteration: usize,
+    },
+    TimeoutCheck {
+        armed: bool,
+    },
+    Permission {
+        id: &'static str,
+        ok: bool,
+        site: &'static Location<'static>,
+    },
+}
+
+/// The simulator interface. One instance may be installed per thread.
+pub trait Simulator {
+    /// simulated monotonic time since an arbitrary epoch
+    fn monotonic_now(&mut self, site: &'static Location<'static>) -> Duration;
+    fn sleep(&mut self, duration: Duration);
+    /// key for the next hash container created in `domain`
+    fn layout_seed(&mut self, domain: LayoutDomain) -> u64;
+    /// how many scope ids to skip before handing out the next one
+    fn id_skip(&mut self) -> usize;
+    fn observe(&mut self, event: &Event);
+}
+
+thread_local! {
+    static SIMULATOR: RefCell<Option<Box<dyn Simulator>>> = const { RefCell::new(None) };
+}
+
+/// install a simulator for the current thread, returning the previous one
+pub fn install(sim: Box<dyn Simulator>) -> Option<Box<dyn Simulator>> {
+    SIMULATOR.with(|s| s.borrow_mut().replace(sim))
+}
+
+/// remove the simulator of the current thread
+pub fn uninstall() -> Option<Box<dyn Simulator>> {
+    SIMULATOR.with(|s| s.borrow_mut().take())
+}
+
+fn with_sim<X>(f: impl FnOnce(&mut dyn Simulator) -> X) -> Option<X> {
+    SIMULATOR
+        .try_with(|s| {
+            // a re-entrant call (impossible unless a simulator calls back into xray) is ignored
+            let mut guard = s.try_borrow_mut().ok()?;
+            guard.as_mut().map(|sim| f(sim.as_mut()))
+        })
+        .ok()
+        .flatten()
+}
+
+#[inline]
+pub(crate) fn observe(event: Event) {
+    with_sim(|s| s.observe(&event));
+}
+
+pub(crate) fn id_skip() -> usize {
+    with_sim(|s| s.id_skip()).unwrap_or(0)
+}
+
+// region clock
+
+lazy_static! {
+    static ref PROCESS_EPOCH: std::time::Instant = std::time::Instant::now();
+}
+
+/// stand-in for `std::time::Instant`: a duration since the simulator's epoch
+#[derive(Debug, Clone, Copy, PartialEq, Eq, PartialOrd, Ord)]
+pub struct Instant(Duration);
+
+impl Instant {
+    #[track_caller]
+    pub fn now() -> Self {
+        let site = Location::caller();
+        Self(
+            with_sim(|s| s.monotonic_now(site))
+                .unwrap_or_else(|| std::time::Instant::now().duration_since(*PROCESS_EPOCH)),
+        )
+    }
+}
+
+impl Add<Duration> for Instant {
+    type Output = Self;
+
+    fn add(self, rhs: Duration) -> Self::Output {
+        Self(self.0.saturating_add(rhs))
+    }
+}
+
+pub mod thread {
+    use std::time::Duration;
+
+    pub fn sleep(duration: Duration) {
+        if super::with_sim(|s| s.sleep(duration)).is_none() {
+            std::thread::sleep(duration)
+        }
+    }
+}
+
+// endregion
+
+// region hashing
+
+#[derive(Clone, Copy)]
+pub struct SimHashState<const COMPILE: bool> {
+    key: u64,
+}
+
+impl<const COMPILE: bool> Default for SimHashState<COMPILE> {
+    fn default() -> Self {
+        let domain = if COMPILE {
+            LayoutDomain::Compile
+        } else {
+            LayoutDomain::Runtime
+        };
+        Self {
+            key: with_sim(|s| s.layout_seed(domain)).unwrap_or(0),
+        }
+    }
+}
+
+impl<const COMPILE: bool> Debug for SimHashState<COMPILE> {
+    fn fmt(&self, f: &mut Formatter<'_>) -> std::fmt::Result {
+        write!(f, "SimHashState")
+    }
+}
+
+pub struct SimHasher {
+    state: u64,
+}
+
+impl Hasher for SimHasher {
+    fn finish(&self) -> u64 {
+        // splitmix64 finalizer
+        let mut z = self.state.wrapping_add(0x9E37_79B9_7F4A_7C15);
+        z = (z ^ (z >> 30)).wrapping_mul(0xBF58_476D_1CE4_E5B9);
+        z = (z ^ (z >> 27)).wrapping_mul(0x94D0_49BB_1331_11EB);
+        z ^ (z >> 31)
+    }
+
+    fn write(&mut self, bytes: &[u8]) {
+        for chunk in bytes.chunks(8) {
+            let mut buf = [0_u8; 8];
+            buf[..chunk.len()].copy_from_slice(chunk);
+            let word = u64::from_le_bytes(buf) ^ ((chunk.len() as u64) << 56);
+            self.state = (self.state.rotate_left(23) ^ word).wrapping_mul(0x2545_F491_4F6C_DD1D);
+            self.state ^= self.state >> 29;
+        }
+    }
+}
+
+impl<const COMPILE: bool> BuildHasher for SimHashState<COMPILE> {
+    type Hasher = SimHasher;
+
+    fn build_hasher(&self) -> Self::Hasher {
+        SimHasher {
+            state: self.key ^ 0x6A09_E667_F3BC_C908,
+        }
+    }
+}
+
+macro_rules! sim_map {
+    ($name: ident, $compile: literal) => {
+        /// `std::collections::HashMap` whose hasher is keyed by the simulator
+        pub struct $name<K, V>(std::collections::HashMap<K, V, SimHashState<$compile>>);
+
+        impl<K, V> $name<K, V> {
+            pub fn new() -> Self {
+                Self(Default::default())
+            }
+        }
+
+        impl<K, V> Default for $name<K, V> {
+            fn default() -> Self {
+                Self::new()
+            }
+        }
+
+        impl<K: Clone, V: Clone> Clone for $name<K, V> {
+            fn clone(&self) -> Self {
+                Self(self.0.clone())
+            }
+        }
+
+        impl<K: Debug, V: Debug> Debug for $name<K, V> {
+            fn fmt(&self, f: &mut Formatter<'_>) -> std::fmt::Result {
+                Debug::fmt(&self.0, f)
+            }
+        }
+
+        impl<K: Eq + Hash, V: PartialEq> PartialEq for $name<K, V> {
+            fn eq(&self, other: &Self) -> bool {
+                self.0 == other.0
+            }
+        }
+
+        impl<K: Eq + Hash, V: Eq> Eq for $name<K, V> {}
+
+        impl<K, V> Deref for $name<K, V> {
+            type Target = std::collections::HashMap<K, V, SimHashState<$compile>>;
+
+            fn deref(&self) -> &Self::Target {
+                &self.0
+            }
+        }
+
+        impl<K, V> DerefMut for $name<K, V> {
+            fn deref_mut(&mut self) -> &mut Self::Target {
+                &mut self.0
+            }
+        }
+
+        impl<K: Eq + Hash, V> FromIterator<(K, V)> for $name<K, V> {
+            fn from_iter<I: IntoIterator<Item = (K, V)>>(iter: I) -> Self {
+                Self(FromIterator::from_iter(iter))
+            }
+        }
+
+        impl<K: Eq + Hash, V, const N: usize> From<[(K, V); N]> for $name<K, V> {
+            fn from(arr: [(K, V); N]) -> Self {
+                Self::from_iter(arr)
+            }
+        }
+
+        impl<K, V> IntoIterator for $name<K, V> {
+            type Item = (K, V);
+            type IntoIter = std::collections::hash_map::IntoIter<K, V>;
+
+            fn into_iter(self) -> Self::IntoIter {
+                self.0.into_iter()
+            }
+        }
+
+        impl<'a, K, V> IntoIterator for &'a $name<K, V> {
+            type Item = (&'a K, &'a V);
+            type IntoIter = std::collections::hash_map::Iter<'a, K, V>;
+
+            fn into_iter(self) -> Self::IntoIter {
+                self.0.iter()
+            }
+        }
+
+        impl<'a, K, V> IntoIterator for &'a mut $name<K, V> {
+            type Item = (&'a K, &'a mut V);
+            type IntoIter = std::collections::hash_map::IterMut<'a, K, V>;
+
+            fn into_iter(self) -> Self::IntoIter {
+                self.0.iter_mut()
+            }
+        }
+
+        impl<K: Eq + Hash + Borrow<Q>, Q: Eq + Hash + ?Sized, V> Index<&Q> for $name<K, V> {
+            type Output = V;
+
+            fn index(&self, index: &Q) -> &Self::Output {
+                self.0.index(index)
+            }
+        }
+
+        impl<K: Eq + Hash, V> Extend<(K, V)> for $name<K, V> {
+            fn extend<I: IntoIterator<Item = (K, V)>>(&mut self, iter: I) {
+                self.0.extend(iter)
+            }
+        }
+    };
+}
+
+macro_rules! sim_set {
+    ($name: ident, $compile: literal) => {
+        /// `std::collections::HashSet` whose hasher is keyed by the simulator
+        pub struct $name<K>(std::collections::HashSet<K, SimHashState<$compile>>);
+
+        impl<K> $name<K> {
+            pub fn new() -> Self {
+                Self(Default::default())
+            }
+        }
+
+        impl<K> Default for $name<K> {
+            fn default() -> Self {
+                Self::new()
+            }
+        }
+
+        impl<K: Clone> Clone for $name<K> {
+            fn clone(&self) -> Self {
+                Self(self.0.clone())
+            }
+        }
+
+        impl<K: Debug> Debug for $name<K> {
+            fn fmt(&self, f: &mut Formatter<'_>) -> std::fmt::Result {
+                Debug::fmt(&self.0, f)
+            }
+        }
+
+        impl<K: Eq + Hash> PartialEq for $name<K> {
+            fn eq(&self, other: &Self) -> bool {
+                self.0 == other.0
+            }
+        }
+
+        impl<K: Eq + Hash> Eq for $name<K> {}
+
+        impl<K> Deref for $name<K> {
+            type Target = std::collections::HashSet<K, SimHashState<$compile>>;
+
+            fn deref(&self) -> &Self::Target {
+                &self.0
+            }
+        }
+
+        impl<K> DerefMut for $name<K> {
+            fn deref_mut(&mut self) -> &mut Self::Target {
+                &mut self.0
+            }
+        }
+
+        impl<K: Eq + Hash> FromIterator<K> for $name<K> {
+            fn from_iter<I: IntoIterator<Item = K>>(iter: I) -> Self {
+                Self(FromIterator::from_iter(iter))
+            }
+        }
+
+        impl<K: Eq + Hash, const N: usize> From<[K; N]> for $name<K> {
+            fn from(arr: [K; N]) -> Self {
+                Self::from_iter(arr)
+            }
+        }
+
+        impl<K> IntoIterator for $name<K> {
+            type Item = K;
+            type IntoIter = std::collections::hash_set::IntoIter<K>;
+
+            fn into_iter(self) -> Self::IntoIter {
+                self.0.into_iter()
+            }
+        }
+
+        impl<'a, K> IntoIterator for &'a $name<K> {
+            type Item = &'a K;
+            type IntoIter = std::collections::hash_set::Iter<'a, K>;
+
+            fn into_iter(self) -> Self::IntoIter {
+                self.0.iter()
+            }
+        }
+
+        impl<K: Eq + Hash> Extend<K> for $name<K> {
+            fn extend<I: IntoIterator<Item = K>>(&mut self, iter: I) {
+                self.0.extend(iter)
+            }
+        }
+    };
+}
+
+sim_map!(RtHashMap, false);
+sim_map!(CtHashMap, true);
+sim_set!(CtHashSet, true);
+
+// endregion
